@@ -22,7 +22,7 @@ type Trace struct {
 	Seed     uint64          `json:"seed"`
 	Scenario string          `json:"scenario"`
 	Tier     string          `json:"tier,omitempty"`
-	Kind     string          `json:"kind,omitempty"` // "seed": re-run the seed (crash/hang that took the worker down)
+	Kind     string          `json:"kind,omitempty"`   // "seed": re-run the seed (crash/hang that took the worker down)
 	Engine   string          `json:"engine,omitempty"` // "netsimx": recorded by the build with automatic schedule points (its tape counts those too)
 	Cfg      json.RawMessage `json:"cfg"`
 	Steps    []Step          `json:"steps"`
